@@ -164,6 +164,18 @@ def _gen_cases(rng, tier):
             md = rng.choice([None, ["int", 0], ["int", 1], ["int", 2], ["int", 3]])
             pl = rng.choice([None, None, None, ["frac", 1, 8], ["frac", 1, 36]])
             cases.append({"kind": "h_explode", "h": h, "md": md, "pl": pl, "via_pool": rng.random() < 0.3})
+    for i in range(max(8, n // 40)):
+        # the guard of the deprecated spelling is on the NUMBER OF FACES: single-faced histograms of any weight
+        # (and zero-padded ones, which have two faces) under integer and fractional limits, also through a pool
+        f = rng.choice([1, 2, -3, 4, 0])
+        w = rng.choice([1, 2, 3, 7])
+        h = [[gens.q(f), w]]
+        md = rng.choice([None, ["int", 1], ["int", 2], ["int", 3]])
+        pl = None if md is not None else rng.choice([None, ["frac", 1, 3], ["frac", 1, 8]])
+        if md is not None and rng.random() < 0.25:
+            # (only with an integer limit: a certain re-roll under a fractional limit ends at the stack limit)
+            h = sorted(h + [[gens.q(f - 1), 0]], key=lambda oc: Fraction(*oc[0]))
+        cases.append({"kind": "h_explode", "h": h, "md": md, "pl": pl, "via_pool": rng.random() < 0.4})
     return cases
 
 
@@ -398,10 +410,16 @@ def agree(case, r, o):
     return r.get("spelling_ok", True)
 
 
-def known_finding(case, known):
+def known_finding_result(case, r, known):
     """K1: the deprecated H.explode / P.explode return a single-faced histogram unchanged (documented
-    guard) where evaluation.explode re-rolls it"""
+    guard) where evaluation.explode re-rolls it.  Only that exact behaviour is the recorded finding: the
+    answer must be the one the guard gives (the oracle and the Coq model both contain the guard) and differ
+    from evaluation.explode in nothing but the spelling comparison; any other answer for a single-faced
+    histogram is a different violation and is reported."""
     if case["kind"] == "h_explode" and len(case["h"]) == 1:
+        o = oracle(case)
+        if o is None or not agree(case, dict(r, spelling_ok=True), o):
+            return None
         for f in known.get("findings", []):
             if f.get("property") == "C08" and f.get("predicate") == "single_faced_histogram_to_deprecated_explode":
                 return f["text"]
